@@ -530,7 +530,8 @@ class CopyEqualsByKind(Contract):
     bounded_scope = "one object per kind in {points, curve, surface, grid2d, geoimage, block model, octree, drillhole, airborne TEM pair, DC/IP pair, tipper pair} with data and non-default scalar attributes (flags flipped, drillhole cost / planning / end_of_hole beyond the last survey); copy into {same workspace, another workspace}; attribute-map attributes, geometry arrays, data values compared; then the copy is edited and the source re-compared (exhaustive over 12 kinds x 2 targets)"
 
     SKIP = {"uid", "property_groups", "last_focus", "clipping_ids: list | None", "name"}
-    ARRAYS = ("vertices", "cells", "surveys", "octree_cells", "u_cell_delimiters", "v_cell_delimiters", "z_cell_delimiters", "layers", "prisms", "centroids", "n_cells", "n_vertices", "extent", "metadata")
+    # the counts come first: they must answer before anything else has been read back
+    ARRAYS = ("n_cells", "n_vertices", "vertices", "cells", "surveys", "octree_cells", "u_cell_delimiters", "v_cell_delimiters", "z_cell_delimiters", "layers", "prisms", "centroids", "extent", "metadata")
 
     def native_cases(self, tier, rng):
         from contracts.copy_wf import KINDS
